@@ -70,10 +70,22 @@ func partsOf(tf *token.File, n ast.Node, prefix string) []item {
 			}
 			a := fv.Index(0).Interface().(ast.Node)
 			b := fv.Index(fv.Len() - 1).Interface().(ast.Node)
-			out = append(out, item{prefix + f.Name, false, off(a.Pos()), off(b.End())})
+			out = append(out, item{prefix + f.Name, false, off(a.Pos()), off(realEnd(b))})
 		}
 	}
 	return out
+}
+
+// realEnd is n.End(), except for a label in front of a closing brace: go/parser positions the
+// implicit empty statement at the brace, which is not a token of the labeled statement.
+func realEnd(n ast.Node) token.Pos {
+	if ls, ok := n.(*ast.LabeledStmt); ok {
+		if es, ok := ls.Stmt.(*ast.EmptyStmt); ok && es.Implicit {
+			return ls.Colon + 1
+		}
+		return realEnd(ls.Stmt)
+	}
+	return n.End()
 }
 
 // relation of a point to a part: +1 the point is documented before the part, -1 after it,
